@@ -175,12 +175,13 @@ func plantInts(r *rand.Rand, v reflect.Value, n *int64) {
 }
 
 type c11file struct {
-	file    []byte
-	t       *gen.T
-	want    []reflect.Value
-	origin  string
-	desc    string
-	planted int64
+	file      []byte
+	t         *gen.T
+	want      []reflect.Value
+	origin    string
+	desc      string
+	planted   int64
+	hugeItems int64
 }
 
 func c11genFile(c *core.Ctx, i int, r *rand.Rand) *c11file {
@@ -196,7 +197,28 @@ func c11genFile(c *core.Ctx, i int, r *rand.Rand) *c11file {
 		} else {
 			f.t = gen.GenStruct(r, gen.TypeOpts{MaxDepth: 3 + r.IntN(2), MaxFields: 2 + r.IntN(4), NoExcluded: true})
 		}
+		huge := i%48 == 9
+		if huge {
+			// one record with tens of thousands of pointees of one type (bank arenas far beyond their first sizes)
+			inner := gen.StructOf(gen.Fld("A", "a", false, gen.Leaf(gen.KInt64)), gen.Fld("S", "s", false, gen.Leaf(gen.KString)), gen.Fld("P", "p", false, gen.PtrTo(gen.Leaf(gen.KInt32))))
+			f.t = gen.StructOf(gen.Fld("X", "x", false, gen.SliceOf(gen.PtrTo(inner))), gen.Fld("N", "n", false, gen.Leaf(gen.KInt64)))
+			f.t = &gen.T{K: gen.KStruct, Fields: f.t.Fields}
+			nrec = 3
+		}
 		for k := 0; k < nrec; k++ {
+			if huge {
+				val := reflect.New(f.t.RT()).Elem()
+				n := 30000 + r.IntN(40000)
+				sl := reflect.MakeSlice(val.Field(0).Type(), n, n)
+				for j := 0; j < n; j++ {
+					sl.Index(j).Set(gen.NewValue(r, f.t.Fields[0].T.Elem, gen.ValOpts{Mode: gen.ModeFull, NoBigStrings: true}))
+				}
+				val.Field(0).Set(sl)
+				val.Field(1).SetInt(int64(n))
+				f.want = append(f.want, val)
+				f.hugeItems += int64(n)
+				continue
+			}
 			o := gen.ValOpts{NoInnerNil: true, NoBigStrings: r.IntN(6) != 0}
 			if r.IntN(4) == 0 {
 				o.Mode = gen.ModeFull
@@ -333,6 +355,7 @@ func runC11(c *core.Ctx, i int) {
 	}
 	c.Count("records-verified", int64(len(got)))
 	c.Count("address-like-integers-planted", f.planted)
+	c.Count("items-in-huge-collections", f.hugeItems)
 	c.Count("forced-gcs", min64(h.forced.Load(), h.budget))
 	// encode side: iteration over maps etc. while collections run
 	if f.origin == "library-encoder" {
